@@ -15,6 +15,7 @@ def run(tier):
     seeds = ["0", "1", "2", "3", "random"] if tier == "quick" else ["0", "1", "2", "3", "4", "7", "random", "random"]
     blocks = gen.blocks(sd * 37 + 14, 50 if tier == "quick" else 1000, profiles=("mixed", "mem", "arith", "stack")) + \
         rng.sample(gen.mem_pair_corpus(), 30) + rng.sample(gen.rule_corpus(), 30) + gen.load_store_corpus() + rng.sample(gen.cse_corpus(), 20) + \
+        gen.ordering_corpus(sd * 53 + 5, 40 if tier == "quick" else 600) + \
         ["PUSH1 0x1 PUSH1 0x0 MSTORE PUSH1 0x2 PUSH1 0x40 MSTORE8 PUSH1 0x5 POP", "PUSH1 0x0 MSTORE PUSH1 0x40 MSTORE8 PUSH1 0x5 POP",
          "PUSH1 0x0 MLOAD PUSH1 0x20 PUSH1 0x40 KECCAK256 SWAP3 SWAP1 SWAP2 MSTORE", "PUSH1 0x0 SLOAD PUSH1 0x0 MLOAD SWAP3 SSTORE PUSH1 0x5 POP",
          "PUSH1 0x1 PUSH1 0x0 SSTORE PUSH1 0x2 PUSH1 0x0 MSTORE PUSH1 0x3 PUSH1 0x40 MSTORE8 PUSH1 0x5 POP"]   # operations of different kinds with the same number
